@@ -34,7 +34,7 @@ ASSUMPTIONS = [
     '(the statement does not say whether 1 is a wrong-typed 1.0)',
 ]
 ANCHORS = ['TableValidator._validate_json', 'TableValidator._validate_hdf5', 'TableValidator._valid_sparse_data', 'TableValidator._valid_dense_data', 'TableValidator._valid_rows', 'TableValidator._valid_columns', 'TableValidator._valid_hdf5_metadata_v210', 'Table.to_json', 'Table.to_hdf5']
-REQUIRED = ['accept_with_explicit_version',
+REQUIRED = ['files_with_utc_offset_in_date', 'accept_with_explicit_version',
             'must_reject_with_explicit_version', 'accept_json', 'accept_hdf5', 'accept_after_load', 'accept_cli', 'json_mutants',
             'hdf5_mutants', 'pair_mutants', 'must_reject_checked',
             'accepted_and_loaded']
@@ -406,11 +406,20 @@ def run_case(ctx, index):
         d = verdicts.setdefault(op, {})
         d[outcome] = d.get(outcome, 0) + 1
     try:
-        text = t.to_json(gby)
+        # the creation date is the caller's to give: naive or with a UTC
+        # offset, with or without microseconds
+        from vm.checks._hdf5 import DATES
+        dkw = {'creation_date': r.choice(DATES)} if r.random() < .5 else {}
+        if dkw:
+            base['creation_date'] = dkw['creation_date'].isoformat()
+            ctx.count('files_with_given_creation_date')
+            if dkw['creation_date'].tzinfo is not None:
+                ctx.count('files_with_utc_offset_in_date')
+        text = t.to_json(gby, **dkw)
         with open(jp, 'w', encoding='utf-8') as f:
             f.write(text)
         with h5py.File(hp, 'w') as f:
-            t.to_hdf5(f, gby, compress=r.random() < .5)
+            t.to_hdf5(f, gby, compress=r.random() < .5, **dkw)
         # ------------------------------------------------------ acceptance
         for fmt, p in (('json', jp), ('hdf5', hp)):
             for ver in (JSON_VERSIONS if fmt == 'json' else H5_VERSIONS):
